@@ -24,6 +24,7 @@ type c20curve interface {
 	Script(form, coeffs, script string) string
 	Expr(resform, rmode string, eid, k int, rest []string) string
 	DivX(m0, m1 int, form, coeffs, script string) string
+	DivXS(m0, m1 int, shift, form, coeffs, script string, shapeOnly bool) string
 	RatioS(resform, beta, xs string, k int, rest []string) string
 	RatioC(resform, beta, gamma, perms, xs string, k int, rest []string) string
 	Read(data []byte) string
@@ -170,10 +171,36 @@ func c20exec1(a []string) string {
 		}
 		m0, e1 := strconv.ParseInt(a[6], 16, 32)
 		m1, e2 := strconv.ParseInt(a[7], 16, 32)
-		if e1 != nil || e2 != nil || m0 > m1 || m1 > c20L {
+		L, _ := strconv.ParseInt(a[3], 16, 32)
+		if e1 != nil || e2 != nil || m0 < 0 || m0 > m1 || m1 > L {
 			return "bad-op"
 		}
 		return c.DivX(int(m0), int(m1), a[8], a[9], a[10])
+	case "divxs", "divxu":
+		// divx on domains with the coset shift a[8]; divxs: shift^|big| != 1 (the division is defined everywhere on the
+		// coset), full answer; divxu: shift^|big| = 1 (x^n - 1 vanishes somewhere on the coset), only the shape is reported
+		if len(a) != 12 {
+			return "bad-op"
+		}
+		c, ok := c20check(a[1:])
+		if !ok {
+			return "bad-op"
+		}
+		m0, e1 := strconv.ParseInt(a[6], 16, 32)
+		m1, e2 := strconv.ParseInt(a[7], 16, 32)
+		L, _ := strconv.ParseInt(a[3], 16, 32)
+		if e1 != nil || e2 != nil || m0 < 0 || m0 > m1 || m1 > L {
+			return "bad-op"
+		}
+		sh := parseBig(a[8])
+		if sh.Sign() == 0 || sh.Cmp(c.Q()) >= 0 {
+			return "bad-op"
+		}
+		one := new(big.Int).Exp(sh, big.NewInt(int64(1)<<m1), c.Q()).Cmp(big.NewInt(1)) == 0
+		if one != (kind == "divxu") {
+			return "bad-op" // the line claims the wrong side of the definedness condition
+		}
+		return c.DivXS(int(m0), int(m1), a[8], a[9], a[10], a[11], kind == "divxu")
 	case "ratios":
 		if len(a) < 10 {
 			return "bad-op"
@@ -329,6 +356,7 @@ func c20gen(gg *gen) {
 		g.expr()
 		g.divx()
 		g.ratios()
+		g.derived(ci)
 		g.polypkg()
 		g.serx(ci)
 		g.histories()
